@@ -897,7 +897,7 @@ def frames_then_fault_cases(rng, prefix="z"):
     followed at once by a hang-up is still a server close), then the fault is reported."""
     cases = []
     n = 0
-    for fault, lead, letters in [(f, l, e) for f in ("eof", "err", "err:reset", "bad") for l in ("conn-close", "deliveries", "chan-close", "reply") for e in ("r", "rh")]:
+    for fault, lead, letters in [(f, l, e) for f in ("eof", "err", "err:reset", "bad") for l in ("conn-close", "deliveries", "chan-close", "reply", "own-close-then-deliveries") for e in ("r", "rh")]:
         if True:
             # (`rh`: the readiness event also carries the hang-up bit, as epoll reports it when the peer
             #  has shut down - the unread frames are in the socket all the same and must be read)
@@ -907,6 +907,11 @@ def frames_then_fault_cases(rng, prefix="z"):
             g.op("send %s send %s" % (h1, hx(amqp.client_only_samples(1)["queue.declare"]))); g.op("ev 1")
             if lead == "conn-close":
                 frs = [g.use(conn_close(320, "CONNECTION_FORCED"))]
+            elif lead == "own-close-then-deliveries":
+                # the client's own Close is queued and flushed; the server has not confirmed it yet
+                g.op("send 0 close0 %s" % hx(amqp.connection_close(200, "goodbye"))); g.op("ev 0")
+                g.op("wscript w:1000000"); g.op("write")
+                frs = [g.use(f) for f in g.deliver(cl, size=3, style="one")]
             elif lead == "deliveries":
                 frs = [g.use(f) for f in g.deliver(cl, size=3, style="one") + g.deliver(cl, size=0)]
             elif lead == "chan-close":
